@@ -341,7 +341,7 @@ def gen_cases(ctx):
     return cases, streams, n_specs
 
 
-def run(ctx):
+def run_main(ctx):
     cases, streams, n_specs = gen_cases(ctx)
     with mp.Pool(ctx.workers) as pool:
         impl = pool.map(run_impl, cases, chunksize=50)
@@ -393,6 +393,9 @@ def run(ctx):
 
 def replay(ctx, failure):
     case = failure['case']
+    if 'program' in case:
+        from harness import pm_prop
+        return pm_prop.replay_pm(ctx, failure, ['c12pm'])
 
     def fix_v(v):
         return ('A', v[1], v[2]) if v[0] == 'A' else (v[0], [(k, fix_v(x)) for k, x in v[1]])
@@ -408,3 +411,17 @@ def replay(ctx, failure):
     fails = monitors(c, r)
     return dict(line=case_line(c), impl=impl_line(r), model=m[0] if m else None,
                 failures=[dict(signature=f['signature'], detail=f['detail']) for f in fails])
+
+
+def run(ctx):
+    """the emission / finish-time streams above, plus the missing-output program of the process-control harness under
+    every placement of pause / play / future cancellation (the finish-time rule must not depend on the schedule)"""
+    out = run_main(ctx)
+    from harness import pm, pm_prop
+    sub = pm_prop.run_pm(ctx, ['pause', 'play', 'cancelfut', 'kill'], ['c12pm'], k_quick=3, k_thorough=4, n_random_quick=0,
+                         n_random_thorough=0, programs={'MissingOut': pm.CORPUS['MissingOut']})
+    out['evaluations'] += sub['evaluations']
+    out['failures'].extend(sub['failures'])
+    out['divergences'].extend(sub['divergences'])
+    out.setdefault('histograms', {})['missing_output_under_schedules'] = dict(cases=sub['evaluations'])
+    return out
